@@ -8,7 +8,7 @@ GEN = ["Api.v"]
 MODEL_IS_SPEC = False
 RULE = ("valid queries (filter-free and with filters), invalid queries (one per error class: syntax, type, index, name) and JSON values; each pair goes through the 11 public entry points "
         "(module find/finditer/find_one/compile, environment find/finditer/find_one/compile, compiled find/apply/finditer/find_one); the results are compared pairwise "
-        "(find == list(finditer), find_one == first or None, same error class everywhere) and the list result with the model; non-trivial = result non-empty or an error; "
+        "(find == list(finditer), find_one == first or None, same error class everywhere) and the list result with the model; each valid pair also runs a random HISTORY of 2-5 calls on one compiled query (find_one, abandoned iterators, two interleaved iterators, another value) whose every result must equal a fresh call; non-trivial = result non-empty or an error; "
         "distinct = distinct (text, value)")
 TRUSTED_BASE = [
     "Coq 8.16.1 kernel; theorems closed under the global context",
@@ -70,6 +70,31 @@ def cases(ctx, budget):
         }
         ref = paths["env.find"]
         problems = []
+        # histories on ONE compiled query: a compiled query holds no state between calls, so what it returned before (a find_one that
+        # stopped early, an iterator abandoned half-way, a different value) cannot change what find() returns now
+        if ref[0] != "err":
+            v2 = gen.rand_json(rng, depth=rng.randint(0, 3), fan=4, names=names, top=True)
+            fresh2 = run(lambda: env.find(text, v2))
+            c = env.compile(text)
+            hist = []
+            for step in range(rng.randint(2, 5)):
+                op = rng.choice(["find_one", "partial", "find", "find2", "two_iters"])
+                hist.append(op)
+                if op == "find_one": got, want = run(lambda: c.find_one(v)), (("none",) if not ref[1] else ("one", ref[1][0][0], ref[1][0][1]))
+                elif op == "partial":
+                    it = c.finditer(v); k = rng.randint(0, 2)
+                    got = run(lambda: [nd for nd, _ in zip(it, range(k))]); want = ("list", ref[1][:k])
+                elif op == "find": got, want = run(lambda: c.find(v)), ref
+                elif op == "find2": got, want = run(lambda: c.find(v2)), fresh2
+                else:
+                    def two():
+                        a, b = c.finditer(v), c.finditer(v2); out = []
+                        for _ in range(3):
+                            out.append(next(a, None)); next(b, None)
+                        return [nd for nd in out if nd is not None] + list(a)
+                    got, want = run(two), ref
+                if got != want:
+                    problems.append("compiled query reused: after %s, %s returned %r instead of %r" % (hist[:-1], op, got, want)); break
         for k, p in paths.items():
             if ref[0] == "err":
                 if p != ref: problems.append("%s: %r instead of %r" % (k, p, ref))
